@@ -240,9 +240,9 @@ PROPS['C08'] = dict(
     oracle=oracle_multi(oracles.oracle_C08), rule=RULE, partial=EQV_PARTIAL[1:] + ['r_singularity: the root selection is a hand model; its scaling follows from the scaling of the coefficients (proved) given that the roots scale (contract of polyroots)'])
 
 PROPS['C09'] = dict(
-    lean=['QscProofs.C09'], theorems=thms('QscProofs.C09'), gen=['GradB', 'GradBCart', 'BfieldCyl', 'BfieldCart'],
+    lean=['QscProofs.C09', 'QscProofs.C09Frob'], theorems=thms('QscProofs.C09', 'QscProofs.C09Frob'), gen=['GradB', 'GradBCart', 'BfieldCyl', 'BfieldCart'],
     corr=corr_generated(['GradB', 'GradBCart', 'BfieldCyl', 'BfieldCart']), oracle=oracle_multi(oracles.oracle_C09),
-    rule=RULE, partial=[CONTINUUM, 'equality of the Frobenius norm in the three bases is checked numerically (it needs orthonormality of the frame, proved in C03)'])
+    rule=RULE, partial=[CONTINUUM, 'equality of the Frobenius norm in the three bases (C09Frob) is proved under orthonormality of the frame, which C03.frame_orthonormal_rh proves for the generated axis; the composition of the two is by inspection'])
 
 PROPS['C10'] = dict(
     lean=['QscProofs.C10', 'QscProofs.C10gen'], theorems=thms('QscProofs.C10') + thms('QscProofs.C10gen.Alt0', 'QscProofs.C10gen.Alt1', 'QscProofs.C10gen.Alt2', 'QscProofs.C10gen.Sym12', 'QscProofs.C10gen.Div', 'QscProofs.C10gen.Sym23', 'QscProofs.C10gen.Harmonic'),
